@@ -600,7 +600,7 @@ fn seq_case(rng: &mut StdRng, n: usize, m1: usize, m2: usize, ty: &str, mag: i64
             5 => vec![json!({"op": "sub_assign", "form": "ref", "b": rand_band_int(rng, cn, cm1, cm2, -2, 2)})],
             6 => vec![json!({"op": "sub_assign", "form": "own", "b": rand_band_int(rng, cn, cm1, cm2, -2, 2)})],
             7 => vec![json!({"op": "mul_assign", "s": ([2i64, -2, 3][rng.gen_range(0..3)])})],
-            8 => { let s = [2i64, -2, 3][rng.gen_range(0..3)]; vec![json!({"op": "mul_assign", "s": s, "quiet": true}), json!({"op": "div_assign", "s": s})] }   // exact division
+            8 => { let s = [2i64, -2, 3][rng.gen_range(0..3)]; vec![json!({"op": "mul_assign", "s": s}), json!({"op": "div_assign", "s": s})] }   // exact division
             9 => vec![json!({"op": "add_scalar_assign", "s": small(rng), "si": small(rng)})],
             10 => vec![json!({"op": "sub_scalar_assign", "s": small(rng), "si": small(rng)})],
             11 => { let n2 = rng.gen_range(1..=(cn + 1).min(10)); let a = rng.gen_range(0..n2); let b = rng.gen_range(0..n2);
